@@ -152,6 +152,35 @@ def run(F, R, tier):
         ok = setv is not None and any("deserialize_non_empty_set" in x for f in setv["fields"] for x in f["attrs"]) or (setv is not None and any("deserialize_non_empty_set" in x for x in setv["attrs"]))
         r4.site("OneOrSetInner::Set deserialize_with deserialize_non_empty_set: %s" % ok, ai["span"])
         r4.require(ok, (OOSI, "deserialize_with"), "the Set variant is not deserialised with deserialize_non_empty_set")
+    # the writer these readers invert is the derived one (One(x) → x, Set(s) / Many(v) → the whole sequence, a one-element set still a
+    # sequence — which the untagged reader takes back as Set): a writer attribute on the enum, a variant or a field is accepted only
+    # when the function it names writes exactly the whole value it was given
+    for ty_ in (OOSI, "identity_core::common::one_or_many::OneOrMany"):
+        at_ = F.ast_item(ty_)
+        if at_ is None:
+            continue
+        alls_ = [(ty_, x) for x in at_["attrs"]] + [("%s::%s" % (ty_, v["name"]), x) for v in at_.get("variants", []) for x in list(v.get("attrs") or []) + [y for f in v["fields"] for y in f["attrs"]]]
+        nw_ = 0
+        for where_, x in alls_:
+            if "serde" not in x:
+                continue
+            for m_ in re.finditer(r'\b(serialize_with|with|into|skip_serializing_if|skip_serializing|skip|rename|rename_all|tag|content|getter)\b\s*(=\s*"([^"]*)")?', x):
+                kind_, fn_w = m_.group(1), m_.group(3)
+                nw_ += 1
+                ok_w = False
+                if kind_ == "serialize_with" and fn_w:
+                    cands = [f for f in F.bodies_all if f.endswith("::" + fn_w.split("::")[-1]) and f.startswith(ty_.rsplit("::", 1)[0])]
+                    if len(cands) == 1 and F.hir(cands[0]) is not None:
+                        try:
+                            tw_ = SR.Table(F, cands[0], opaque=r"::serialize$")
+                            p0 = SY.param_name(F, cands[0], 0)
+                            ok_w = bool(tw_.paths) and all(len(q.calls(r"::serialize$")) == 1 and p0 is not None and SR.pure(q.calls(r"::serialize$")[0].args[0], SR.param(p0))
+                                                           and SR.pure(q.ret, q.calls(r"::serialize$")[0].result.t) for q in tw_.paths)
+                        except Exception:
+                            ok_w = False
+                r4.require(ok_w, (where_, "custom-writer", kind_), "%s carries the writer attribute `%s`%s: the untagged reader (One before Set, Set read as a non-empty sequence) is the inverse of the derived writer only — e.g. a one-element set written as a bare element is read back as One, not equal to what was written" % (
+                    L.short(where_), m_.group(0), "" if not fn_w else " and %s does not write the whole value on every path" % fn_w))
+        r4.site("%s: %d writer attribute(s); written by the derived Serialize" % (L.short(ty_), nw_))
     fn = "identity_core::common::one_or_set::deserialize_non_empty_set"
     if r4.anchor(F.hir(fn), fn):
         tab = SR.Table(F, fn, opaque=r"Deserialize::deserialize$|::deserialize$", rule=r4)
@@ -172,4 +201,4 @@ def run(F, R, tier):
                 good = len(tf) == 1 and len(dv) == 1 and SR.pure(tf[0].args[0], ("payload", dv[0].result.t, "Ok", 0)) and SR.pure(q.ret, ("payload", tf[0].result.t, "Ok", 0))
             r4.require(good, (fn, "own-deserialize"), "deserialize_non_empty_set does not return the set produced by OrderedSet::deserialize ✓ (the duplicate-rejecting reader): %s" % SY.fmt(SY.term(q.ret))[:160])
         r4.site("deserialize_non_empty_set: Ok only for a non-empty deserialised set: %s" % okd)
-    r4.floor(10)
+    r4.floor(12)
